@@ -166,6 +166,17 @@ func init() {
 		}
 		l.Def("estimateReserves", "Bool", fmt.Sprint(estMarks))
 
+		// --- a reservation remembers the draft holding it; only that draft releases it
+		holder := false
+		if m, c2 := c.Func("masswallet/wallet.go", "WalletManager", "MarkUsedUTXO"), c.Func("masswallet/wallet.go", "WalletManager", "ClearUsedUTXOMark"); m != nil && c2 != nil {
+			ms := strings.Join(strings.Fields(c.Src(m.Body)), " ")
+			cs := strings.Join(strings.Fields(c.Src(c2.Body)), " ")
+			holder = strings.Contains(ms, "msgTx.TxHash()") && !strings.Contains(ms, ", nil, cache.DefaultExpiration") &&
+				strings.Contains(cs, "msgTx.TxHash()") && strings.Contains(cs, "usedCache.Get")
+		}
+		c.check("txbuild.releaseChecksHolder", holder, "ClearUsedUTXOMark releases a reservation without checking which draft holds it")
+		l.Def("releaseChecksHolder", "Bool", fmt.Sprint(holder))
+
 		// --- API: a draft rejected by the fee ceiling releases its reservation (D14)
 		nLimit, nRelease := 0, 0
 		for _, fn := range []string{"CreateRawTransaction", "CreateStakingTransaction", "CreateBindingTransaction", "AutoCreateTransaction"} {
